@@ -105,6 +105,18 @@ CHECKS = {
          "traces_validated_against_impl == transitions (all run on the real code). Depth 2 quick / 3 thorough; "
          "degenerate effective boxes skipped for line/polygon kinds; evidence counts evaluations through the index path.",
          "DESIGN.md section 3/C04"),
+ "C20": ("model_checking", "E2",
+         "explicit-state BFS over frame-operation histories (pandas and Dask) with a (columns, active, rows, partitions) reference model",
+         "Breadth-first search to depth 3 (4 in thorough) over iloc/filter/sort/copy/pickle/concat/head/loc/cx/column "
+         "subsets/set_geometry/from_pandas(k) and Dask filter/cx/column subset/set_geometry/pack_partitions/"
+         "to_parquet+read_parquet_dask(geometry=g|None)/compute, from frames with three geometry columns of different "
+         "kinds whose active column is neither first nor named 'geometry'. In every new state: result type, "
+         ".geometry.name, rows, and behavioural probes that reveal which column was really used (cx on boxes where the "
+         "columns disagree, build_sindex, sjoin, packing order, per-partition active geometry via map_partitions, "
+         "partition bounds, compute()).",
+         "Each transition replays the history on a fresh real frame (traces_validated_against_impl == transitions). "
+         "Column subsets that drop the active but keep another geometry column are not generated; pack raising is exempt.",
+         "DESIGN.md section 3/C20"),
 }
 
 NOT_YET = {}
